@@ -60,6 +60,6 @@ for pat in N3_HEAVY:
     OBLIGATIONS.append(_mk(pat, 3, "thorough", 1500))
 for pat in N4:
     OBLIGATIONS.append(_mk(pat, 3, "thorough", 2400))
-for pat in ("PDp", "DdP", "PPP"):
+for pat in ("PDp", "DdP", "PPP", "DpDp", "DpDd"):
     OBLIGATIONS.append(_mk(pat, 2, "both", 400))
     OBLIGATIONS.append(_mk(pat, 1, "both", 400))
